@@ -441,3 +441,30 @@ def sp_agg(ex, args, kwargs, node):
     e2[lam.node.args.args[0].arg] = t
     body = ex.eval(lam.node.body, e2, _SpecFrame(ex))
     return F_AGG(z3.Lambda([t], to_z3(body, "real")), to_z3(n, "int"))
+
+
+@model("builtins.getattr")
+def py_getattr(ex, args, kwargs, node):
+    obj, name = args[0], args[1]
+    if not isinstance(name, str):
+        raise Unsupported("getattr with a computed name")
+    if isinstance(obj, Obj):
+        if name in obj.fields:
+            return obj.fields[name]
+        if ex.class_member(obj.cls, name) is not None:
+            return ex.get_attr(obj, name, node, {}, ex.frames[-1])
+        if len(args) > 2:
+            return args[2]
+        from .symexec import PathRaise
+        raise PathRaise("AttributeError", node)
+    if isinstance(obj, Opaque):
+        return opaque_attr(ex, obj, name)
+    raise Unsupported(f"getattr on {type(obj).__name__}")
+
+
+@model("builtins.hasattr")
+def py_hasattr(ex, args, kwargs, node):
+    obj, name = args[0], args[1]
+    if isinstance(obj, Obj) and isinstance(name, str):
+        return name in obj.fields or ex.class_member(obj.cls, name) is not None
+    raise Unsupported("hasattr on a non-record object")
